@@ -221,7 +221,7 @@ EXTRA = {
            'on one track id, hostile strings with "$"; the document with the hostile strings is itself validated.',
     'C06': ' A stream stored with top-level free padding (after moov, between fragments, at the end of the file). The padded stream also has a free box before ftyp.',
     'C07': ' Where the text given has a reading of its own (integer literals) that reading must reach the media endpoint; time-of-day '
-           'error positions must name the segment that contains the instant; text-valued options round-trip starting from the value.',
+           'error positions must name the segment that contains the instant; text-valued options round-trip starting from the value. A second stream with option defaults of its own (spec/OptionLayers.tla): values left out, equal to the global default, equal to the stream default, other.',
     'C08': ' The timing reference varies per option group (incl. durations whose double is not a whole number of seconds); thorough: '
            'Apalache checks the single-state clauses over unbounded integers.',
     'C10': ' A refused init request for a stored file is a violation; manifests of every mode with DRM selections are requested before '
